@@ -142,6 +142,6 @@ Section Fin.
     o_pending o !! k = None → (a ∈ j_destruct j ∨ j_db j !! a = None) → committed j a o k = 0.
   Proof.
     intros Hp Hz. unfold committed, db_stor. rewrite Hp. case_bool_decide; [done|].
-    destruct Hz as [?|->]; done.
+    destruct Hz as [?|Hz]; [done|by rewrite Hz].
   Qed.
 End Fin.
